@@ -228,6 +228,37 @@ func checkIncludes(j *job.Job, s *job.Sink, c int64, r *rand.Rand) {
 		}
 		s.Count("includes_checked", 1)
 	}
+	// A submodule merges into its owner and nowhere else: a module (or a submodule of
+	// another module) that includes a submodule which says it belongs to m is reported,
+	// in every load order, and the foreign definitions do not appear in its tree.
+	viaSub := r.Intn(2) == 0
+	foreign := []string{
+		"submodule s { belongs-to m { prefix m; } leaf mark { type string; } }",
+		"module m { namespace \"urn:m\"; prefix m; include s; leaf top { type string; } }",
+	}
+	if viaSub {
+		foreign = append(foreign, "module q { namespace \"urn:q\"; prefix q; include qs; leaf own { type string; } }", "submodule qs { belongs-to q { prefix q; } include s; leaf qmark { type string; } }")
+	} else {
+		foreign = append(foreign, "module q { namespace \"urn:q\"; prefix q; include s; leaf own { type string; } }")
+	}
+	fdesc := map[string]any{"texts": foreign}
+	for _, p := range allPerms(len(foreign)) {
+		s.Count("load_orders", 1)
+		ms := yang.NewModules()
+		for _, i := range p {
+			if err := ms.Parse(foreign[i], fmt.Sprintf("g%d.yang", i)); err != nil {
+				s.Violation(c, j.CaseID(c), "C13.includes", "include-load-rejected", fmt.Sprintf("load order %v: %v", p, err), fdesc, nil)
+				return
+			}
+		}
+		errs := ms.Process()
+		_, merged := yang.ToEntry(ms.Modules["q"]).Dir["mark"]
+		s.Count("foreign_includes_checked", 1)
+		if len(errs) == 0 || merged {
+			s.Violation(c, j.CaseID(c), "C13.includes", "include-of-a-submodule-of-another-module", fmt.Sprintf("load order %v: %d errors, the submodule's leaf in the tree of q: %v", p, len(errs), merged), fdesc, nil)
+			return
+		}
+	}
 }
 
 func checkHeaders(j *job.Job, s *job.Sink, c int64, hs []hdr, imp hdr, importer string) {
